@@ -8,6 +8,7 @@ from ..interp import Interp
 from ..values import *
 from .. import transfer as T
 from ..fgmodel import GeoHooks, build_fullgrid, FG
+from ..astutil import normaliser_functions
 from ..model import AnalysisError, src
 from ..rules.ordkind import OrdAnalysis, ASC, UNKNOWN
 
@@ -252,7 +253,7 @@ def run(ctx, repo, tier):
         else:
             ctx.ok("ORD", "C09.decompose.o.order", "directions: duplicates removed by sorted first-occurrence indices (original order)", dw)
             Xe = expand(X)
-            okn = isinstance(Xe, ast.Call) and isinstance(Xe.func, ast.Name) and Xe.func.id == "normalise_vectors" and col_slice(Xe.args[0]) == (0, 3)
+            okn = isinstance(Xe, ast.Call) and isinstance(Xe.func, ast.Name) and Xe.func.id in normaliser_functions(repo) and col_slice(Xe.args[0]) == (0, 3)
             ctx.check(okn, "LAYOUT", "C09.decompose.o.columns", "directions are the normalised columns [0,3)", dw, src(Xe)[:120], witness=src(Xe)[:200])
         # translations: unique of norms (ascending = original order since radii ascend, C16)
         te = expand(t_e)
